@@ -21,7 +21,11 @@ Property theorems only. Two layers:
   from the tree under test on every run; `decide`, so a code change that alters a row re-checks
   them): `c17_lock_order_ranked`, `c17_no_lock_leak`, `c17_guarded_by`, `c17_common_lock_sound`,
   `c17_undisciplined_exact`, `c17_tables_wellformed`, `c17_package_state_guarded`,
-  `c17_no_shared_address_escapes`;
+  `c17_no_shared_address_escapes`, `c17_escaped_containers_copy_on_write`,
+  `c17_container_tables_wellformed` (slice/map fields: no header that escapes its critical section
+  belongs to a field whose backing store is written in place);
+* **why that suffices** (`Spine.SliceCow`, abstract): `c17_cow_header_stays_valid`,
+  `c17_inplace_write_hits_handed_out_header`;
 * **connection** of the two: `c17_no_deadlock`, `c17_disciplined_fields_ordered` (exclusive mutex
   model), `c17_disciplined_fields_ordered_rw` (reader/writer model, covers every disciplined field);
 * **reader/writer deadlocks** (`Spine.LockRW`: Go's blocking rule with queued writers, refinement to
